@@ -1,6 +1,10 @@
 package vh
 
 import (
+	"flag"
+	"fmt"
+	"os"
+
 	"pgregory.net/rapid"
 )
 
@@ -56,4 +60,21 @@ func smActions(kind string, actions map[string]func(*rapid.T), bogus func(string
 	return rapid.StateMachineActions(&smA{base})
 }
 
-func childMain() {}
+func childMain() {
+	flag.Parse() // TestMain runs before the testing flags are parsed; the library reads testing.Short()
+	switch os.Getenv("VERIF_CHILD") {
+	case "fresh":
+		initWork()
+		defer os.RemoveAll(workRoot)
+		dir := EnterCaseDir()
+		cases := firstCases(1)
+		LeaveCaseDir(dir)
+		if len(cases) > 0 {
+			fmt.Println(cases[0])
+		}
+	case "crash":
+		crashChild()
+	}
+}
+
+func crashChild() {}
